@@ -16,6 +16,7 @@ from verif import (Infra, Verdict, Work, build_driver, go_test_overlay, load_kno
                    read_ndjson, run_driver, save_replay, tlc_expect_ok, tlc_expect_violation, write_ndjson)
 
 PROP = "C09"
+REPRO_CAP = 3
 MUTANTS = ["bad_is_nil_ip", "cidr_any_family", "unset_trusts_all", "first_entry_only",
            "extract_before_strip", "strip_misses_uri", "strip_misses_path", "strip_first_line"]
 INVARIANTS = ["InvTrust", "InvProperty", "InvUntrusted", "InvTrusted", "InvUpstream"]
@@ -57,8 +58,12 @@ def facts_of(c, reasons, exp):
         "peer_fam": c["peer"]["fam"],
         "list_set": c["list"]["set"],
         "list_kinds": ",".join(sorted({e["k"] for e in c["list"]["entries"]})),
+        "list_has_bad_ip": any(e["k"] == "bad" for e in c["list"]["entries"]),
         "far": bool(c.get("far")),
         "reason": ",".join(sorted(reasons)),
+        # all failed comparisons say: headers of a peer that is not listed were honoured / visible / passed on
+        "reason_class": "unlisted-peer-honoured" if all(r.startswith("untrusted-") for r in reasons) else
+                        ("listed-peer-view" if all(r.startswith("trusted-") for r in reasons) else "mixed"),
     }
     for n, v in c["h"].items():
         f["h_" + n] = v
@@ -84,23 +89,37 @@ def generate(work, seed, net="loop", rep=True, name="cases.ndjson"):
     return cases, n
 
 
-def run_overlay(work, cases_path, trace_path, seed, concrete=False):
-    """Peers that no loopback connection can have: executed inside packages decision and proxy with
-    httptest requests whose RemoteAddr is chosen (complete real middleware chain and pipeline)."""
-    parts = []
-    for pkg, fname, mode in (("internal/handler/decision", "c09_decision_test.go", "decision"),
-                             ("internal/handler/proxy", "c09_proxy_test.go", "proxy")):
-        out = work.path("overlay-%s-%d.ndjson" % (mode, work.next()))
+def run_overlay(work, binary, cases_path, trace_path, seed, concrete=False):
+    """Peers that no loopback connection can have (public IPv4 / IPv6, zone-qualified link-local
+    IPv6): c09drv prepares the concrete requests, the generic in-package executors
+    (harness/overlay/c09_*_test.go) build the services with the unexported newService and call the
+    returned handler (complete real middleware chain, rule executor, repository, mechanisms) with
+    httptest requests whose RemoteAddr is chosen, c09drv projects their reports."""
+    n = work.next()
+    prepared, ids = work.path("prepared%d.ndjson" % n), work.path("farids%d.ndjson" % n)
+    args = ["-cases", cases_path, "-prepare", prepared, "-trace", ids, "-seed", seed]
+    if concrete:
+        args.append("-concrete")
+    log(run_driver(binary, args).strip())
+    raws = []
+
+    def one(pkg, fname, mode):
+        raw = work.path("raw-%s-%d.ndjson" % (mode, n))
         rc, txt = go_test_overlay(work, pkg, [fname], "TestVerifC09",
-                                  env={"VERIF_C09_CASES": cases_path, "VERIF_C09_TRACE": out, "VERIF_C09_MODE": mode,
-                                       "VERIF_C09_SEED": seed, "VERIF_C09_CONCRETE": "1" if concrete else ""},
-                                  timeout=900)
-        if rc != 0 or not os.path.exists(out):
-            raise Infra("overlay driver %s failed:\n%s" % (pkg, txt[-4000:]))
-        parts.append(out)
-    with open(trace_path, "w") as f:
-        for p in parts:
-            f.write(open(p).read())
+                                  env={"VERIF_C09_PREPARED": prepared, "VERIF_C09_RAW": raw}, timeout=900)
+        if rc != 0 or not os.path.exists(raw):
+            raise Infra("in-package executor %s failed:\n%s" % (pkg, txt[-4000:]))
+        return raw
+
+    with ThreadPoolExecutor(max_workers=2) as ex:
+        fs = [ex.submit(one, "internal/handler/decision", "c09_decision_test.go", "decision"),
+              ex.submit(one, "internal/handler/proxy", "c09_proxy_test.go", "proxy")]
+        raws = [f.result() for f in fs]
+    allraw = work.path("raw%d.ndjson" % n)
+    with open(allraw, "w") as f:
+        for r in raws:
+            f.write(open(r).read())
+    log(run_driver(binary, ["-cases", ids, "-raw", allraw, "-trace", trace_path]).strip())
 
 
 def produce(work, binary, tier, seed):
@@ -116,7 +135,7 @@ def produce(work, binary, tier, seed):
         far, nfar = generate(work, seed, net="any", name="farcases.ndjson")
         ngen += nfar
         part = work.path("trace-far.ndjson")
-        run_overlay(work, far, part, seed)
+        run_overlay(work, binary, far, part, seed)
         parts.append(part)
     n = 0
     with open(trace, "w") as f:
@@ -142,7 +161,7 @@ def execute_concrete(work, binary, cases, tag):
     if far:
         cf, tf = work.path("ref%s.ndjson" % tag), work.path("ref%s.trace.ndjson" % tag)
         write_ndjson(cf, far)
-        run_overlay(work, cf, tf, 0, concrete=True)
+        run_overlay(work, binary, cf, tf, 0, concrete=True)
         out += read_ndjson(tf)
     tf = work.path("reall%s.trace.ndjson" % tag)
     write_ndjson(tf, out)
@@ -165,8 +184,10 @@ def reproduce(work, binary, lines, bad, times=3):
     return [(c, reasons[c["id"]]) for c in cand]
 
 
-def binding_selftest(work, lines):
-    """Corrupts recorded observations and checks that TLC rejects exactly the corrupted lines."""
+def binding_selftest(work, lines, rejected_ids):
+    """Corrupts recorded observations of accepted cases and checks that TLC rejects exactly the
+    corrupted lines."""
+    lines = [c for c in lines if c["id"] not in rejected_ids]
     mutated = []
     kinds = {}
 
@@ -177,6 +198,8 @@ def binding_selftest(work, lines):
             mutated.append(m)
 
     for c in lines:
+        if len(kinds) >= 9 and all(n >= 12 for n in kinds.values()):
+            break
         t = c.get("trust")
         o = c["obs"]
         sent = [n for n, v in c["h"].items() if v > 0]
@@ -195,7 +218,7 @@ def binding_selftest(work, lines):
                 m = copy.deepcopy(c); m["obs"]["view"]["method"] = "f1"; m["obs"]["rule"]["method"] = "f1"; add("t-fallback", m)
             if c["h"]["for"] > 0 and c["h"]["forwarded"] == 0:
                 m = copy.deepcopy(c); m["obs"]["ips"] = ["peer"]; add("t-ips", m)
-    if len(kinds) < 8:
+    if len(kinds) < (9 if not rejected_ids else 3):
         raise Infra("binding self-test: only %s corruptible" % sorted(kinds))
     tf = work.path("selftest.ndjson")
     write_ndjson(tf, mutated)
@@ -237,9 +260,22 @@ def run(tier, seed, replay=None):
         known = load_known(PROP)
         expected = {b["id"]: b["expected"] for b in v["bad"]}
         confirmed = []
+        skipped = 0
         if v["bad"]:
-            log("%d cases rejected; re-executing them in isolation" % len(v["bad"]))
-            confirmed = reproduce(work, binary, lines, v["bad"])
+            # at most REPRO_CAP rejected cases per signature (mode, peer, list, failed comparisons) are
+            # re-executed; the others fail in the same way and add nothing to the verdict
+            by_id = {c["id"]: c for c in lines}
+            per_sig, todo = {}, []
+            for b in v["bad"]:
+                c = by_id[b["id"]]
+                sig = (c["mode"], json.dumps(c["peer"]), json.dumps(c["list"]), tuple(sorted(b["reasons"])))
+                per_sig[sig] = per_sig.get(sig, 0) + 1
+                if per_sig[sig] <= REPRO_CAP:
+                    todo.append(b)
+            skipped = len(v["bad"]) - len(todo)
+            log("%d cases rejected (%d signatures); re-executing %d of them in isolation"
+                % (len(v["bad"]), len(per_sig), len(todo)))
+            confirmed = reproduce(work, binary, lines, todo)
         for c, reasons in confirmed:
             f = facts_of(c, reasons, expected[c["id"]])
             k = match_known(known, f)
@@ -249,7 +285,7 @@ def run(tier, seed, replay=None):
                 path = save_replay(PROP, case_key(c)[:12], [c]) if len(verdict.violations) < 20 else "(not saved)"
                 verdict.violation(path, ",".join(reasons) + " " + json.dumps(f))
 
-        selftest = binding_selftest(work, lines)
+        selftest = binding_selftest(work, lines, {b["id"] for b in v["bad"]})
 
         distinct_nt = len({case_key(c) for c in lines
                            if any(x > 0 for x in c["h"].values()) and c.get("trust") != "open"})
@@ -263,6 +299,7 @@ def run(tier, seed, replay=None):
             "nontrivial_cases": v["nontrivial"],
             "rejected_by_tlc": len(v["bad"]),
             "reproduced": len(confirmed),
+            "rejected_not_reexecuted_same_signature": skipped,
             "binding_selftest": selftest,
             "samples": [x for x in lines if any(n > 0 for n in x["h"].values())][:3],
             "modes": sorted({c["mode"] for c in lines}),
